@@ -370,6 +370,13 @@ def shrink(prop, sc, rule, budget_s=25.0):
                 break
             if len(json.dumps(cand)) >= len(json.dumps(best)):
                 continue
+            valid = getattr(prop, "valid", None)
+            if valid is not None:
+                try:
+                    if not valid(cand):
+                        continue  # the candidate is not a scenario the generator could have produced
+                except Exception:
+                    continue
             tried += 1
             try:
                 out = guarded_execute(prop, cand, wall=min(10.0, getattr(prop, "run_wall", 20.0)))
